@@ -178,6 +178,8 @@ class C17(StdCheck):
         "the model's parser accepts exactly the writer's fragment; any other token makes it reject (counted as structure_preserved failure)",
     ]
     assumptions = ["DependencyGraph parents/children of a created object are read from the implementation (oracle)",
+                   "the ORDER in which a cascade visits the dependents (DependencyGraph::GetChildren) is an oracle: it shows only when a fault ends the loop "
+                   "(0ce9ca7), the driver lets the model visit first the dependents the implementation removed (the theorems hold for every order)",
                    "delete faults: WHICH deactivation throws is chosen by the generator (an OnActiveChanged subscriber connected by the harness for the duration of the call); "
                    "that an aborted deactivation has untracked the object's references (generated Stop()) is mirrored by the driver's book-keeping of dependency edges (an inactive object is nobody's dependent)",
                    "file path of a created object: read from the implementation and compared with the modelled path (spec clause file_where_expected); "
